@@ -21,6 +21,8 @@ inductive Ev where
   /-- the member's subscription changed (`subscribe()` by the user, or a pattern match change
       observed through `subscription()`): the old assignment is dead -/
   | sub (m : Nat)
+  /-- the topics of the member's current subscription (observed together with `sub`) -/
+  | subT (m : Nat) (topics : List Nat)
   /-- `on_partitions_revoked` starts / returns -/
   | revS (m : Nat)
   | revE (m : Nat)
